@@ -42,7 +42,7 @@ def cases(tier, seed):
                         nx = 0 if strategy == "dirrec" else [0, 0, 1, 2][i % 4]
                         yield {"strategy": strategy, "scitype": scitype, "n": n, "wl": wl, "fh": fh, "nx": nx,
                                "fh_in": ["fit", "both", "predict"][i % 3], "off": [0, 3, -7, 500][i % 4],
-                               "then": ["none", "none", "update_refit", "update_norefit"][(i // 3) % 4], "values": "id", "dseed": i}
+                               "then": ["none", "none", "update_refit", "update_norefit", "update_predict"][(i // 3) % 5], "values": "id", "dseed": i}
     nn = 600 if tier == "quick" else 30000
     for _ in range(nn):
         strategy = STRATS[int(rng.integers(0, 4))]
@@ -52,7 +52,7 @@ def cases(tier, seed):
         fh = sorted(set(int(x) for x in rng.integers(1, 7, size=k)))
         yield {"strategy": strategy, "scitype": ["tabular-regressor", "time-series-regressor"][int(rng.integers(0, 2))], "n": n, "wl": wl,
                "fh": fh, "nx": 0 if strategy == "dirrec" else int(rng.integers(0, 3)), "fh_in": ["fit", "both", "predict"][int(rng.integers(0, 3))],
-               "off": int(rng.integers(-100, 10 ** 5)), "then": ["none", "update_refit", "update_norefit"][int(rng.integers(0, 3))],
+               "off": int(rng.integers(-100, 10 ** 5)), "then": ["none", "update_refit", "update_norefit", "update_predict"][int(rng.integers(0, 4))],
                "values": ["id", "random"][int(rng.integers(0, 2))], "dseed": int(rng.integers(0, 2 ** 31))}
 
 
@@ -152,6 +152,8 @@ def run_case(case, ctx):
     strategy, scitype, n, wl, fh, nx, off = (case[k] for k in ("strategy", "scitype", "n", "wl", "fh", "nx", "off"))
     hmax = max(fh)
     n_upd = 3 if case["then"] != "none" else 0
+    if case["then"] == "update_predict":
+        n_upd = 0 if case["nx"] else 3
     total = n + n_upd + hmax + 2
     S = _series(case, total)
     lid = spies.new_log()
@@ -191,7 +193,19 @@ def _drive(case, ctx, make_reduction, S, lid, strategy, scitype, n, wl, fh, nx, 
         return
     fit_objs = [e["obj"] for e in fits]
     cur_n = n
-    if case["then"] != "none":
+    if case["then"] == "update_predict" and nx:
+        ctx.tag("then:update_predict-skipped (exogenous data: declared not implemented by the repository)")
+    elif case["then"] == "update_predict":
+        # a rolling evaluation over later data leaves the forecaster's own cutoff where it was: a following predict must
+        # still be made from the window that ends at that cutoff, whatever the forecaster has seen in between
+        from sktime.forecasting.model_selection import SlidingWindowSplitter
+        y2, X2 = _frame(S, n, n + n_upd + hmax, off, nx)
+        ok, _ = ctx.call("reduce:%s:update_predict-exception" % strategy, lambda: f.update_predict(y2, cv=SlidingWindowSplitter(fh=fh, window_length=1), update_params=False))
+        if not ok:
+            return
+        ctx.check("predict.window", int(f.cutoff) == off + n - 1, "reduce:%s:update_predict-moved-cutoff" % strategy, "update_predict left the cutoff elsewhere", got=f.cutoff)
+        ctx.tag("then:update_predict")
+    elif case["then"] != "none":
         y2, X2 = _frame(S, n, n + n_upd, off, nx)
         before = len(lg)
         ok, _ = ctx.call("reduce:%s:update-exception" % strategy, f.update, y2, X2, update_params=(case["then"] == "update_refit"))
